@@ -43,7 +43,15 @@ def splitCase (line : String) : List String × String :=
 def sumL (l : List Int) : Int := l.foldl (· + ·) 0
 
 def fnOfTok (t : String) : Fn Int :=
-  if t == "id" then total (fun s => s)                                   -- pass-through stages: in Go they hand back
+  -- stages that yield nothing (in Go: a nil slice `nl`, a filter written with `var out []T` that matches nothing
+  -- `fg<k>`, an empty non-nil slice `em` — all the empty argument list) and stages that produce a value from zero
+  -- arguments (`ct` count, `cn<c>` constant)
+  if t == "nl" then total (fun _ => [])
+  else if t == "em" then total (fun _ => [])
+  else if t == "ct" then total (fun s => [(s.length : Int)])
+  else if t.startsWith "cn" then total (fun _ => [(dropS t 2).toInt?.getD 0])
+  else if t.startsWith "fg" then total (fun s => s.filter (fun x => decide (x > (dropS t 2).toInt?.getD 0)))
+  else if t == "id" then total (fun s => s)                                   -- pass-through stages: in Go they hand back
   else if t == "so" then total (fun s => s.mergeSort (fun a b => decide (a ≤ b)))   -- the slice they were given
   else if t == "sd" then total (fun s => s.mergeSort (fun a b => decide (a ≥ b)))   -- (sorted in place) or a view of it
   else if t.startsWith "tk" then total (fun s => s.take ((dropS t 2).toNat?.getD 0))
